@@ -65,6 +65,7 @@ fn main() {
     let mut gs = vec![];
     let mut hist: BTreeMap<String, u64> = BTreeMap::new();
     let mut multi = vec![];
+    let mut worlds_vary: Vec<usize> = vec![];
     let mut panics = vec![];
     let mut seen = HashSet::new();
     let mut nontrivial = 0u64;
@@ -83,6 +84,7 @@ fn main() {
             }
         }
         let mut observed: Vec<Outcome> = vec![];
+        let mut worlds: Vec<Vec<DFact>> = vec![];
         let reps = if i < n_corpus { m * 4 } else { m };
         for k in 0..reps {
             // same contents, another insertion order of facts and rules
@@ -94,7 +96,14 @@ fn main() {
             let run = if k % 3 == 2 {
                 run_auth_cloned(blocks, &a2, limits, &keys, &mut rng)
             } else {
-                run_auth(blocks, &a2, limits, &keys, &mut rng).outcome
+                let r = run_auth(blocks, &a2, limits, &keys, &mut rng);
+                // what queries would observe: the facts with their origins after a clean run
+                if let (Some(fs), false) = (&r.facts, matches!(r.outcome, Outcome::Exec | Outcome::Limit(_) | Outcome::Other(_) | Outcome::Panic)) {
+                    if !worlds.contains(fs) {
+                        worlds.push(fs.clone());
+                    }
+                }
+                r.outcome
             };
             runs_total += 1;
             let run = match run {
@@ -111,6 +120,9 @@ fn main() {
         *hist.entry(format!("{}-outcomes", observed.len())).or_default() += 1;
         if observed.len() > 1 {
             multi.push(i);
+        }
+        if worlds.len() > 1 {
+            worlds_vary.push(i);
         }
         let first = ARun { outcome: observed[0].clone(), facts: None, iterations: 0 };
         let base = g_acase(blocks, a, limits, &first);
@@ -154,7 +166,7 @@ fn main() {
     let hist_s: Vec<String> = hist.iter().map(|(k, v)| format!("{}: {}", jstr(k), v)).collect();
     let files_s: Vec<String> = files.iter().chain(kfiles.iter()).map(|p| jstr(p)).collect();
     println!(
-        "{{\"family\": \"determinism\", \"evaluations\": {}, \"corpus\": {}, \"runs_per_case\": {}, \"cases_with_tight_iteration_budget\": {}, \"authorize_runs\": {}, \"distinct_nontrivial\": {}, \"observed_outcome_count_histogram\": {{{}}}, \"cases_with_several_outcomes\": {:?}, \"panics\": {:?}, \"samples\": [{}], \"kernel_sample\": {}, \"kernel_indices_stride\": {}, \"files\": [{}]}}",
+        "{{\"family\": \"determinism\", \"evaluations\": {}, \"corpus\": {}, \"runs_per_case\": {}, \"cases_with_tight_iteration_budget\": {}, \"authorize_runs\": {}, \"distinct_nontrivial\": {}, \"observed_outcome_count_histogram\": {{{}}}, \"cases_with_several_outcomes\": {:?}, \"cases_whose_derived_facts_vary\": {:?}, \"panics\": {:?}, \"samples\": [{}], \"kernel_sample\": {}, \"kernel_indices_stride\": {}, \"files\": [{}]}}",
         all.len(),
         n_corpus,
         m,
@@ -163,6 +175,7 @@ fn main() {
         nontrivial,
         hist_s.join(", "),
         multi,
+        worlds_vary,
         panics,
         samples.iter().map(|s| jstr(s)).collect::<Vec<_>>().join(", "),
         sample.len(),
